@@ -2413,12 +2413,15 @@ class ListFlow:
     -> evaluated term.  Lists with one common base are 'parallel' with the difference vector of their offsets;
     such a state is renamed to a program-point symbol so that loops reach a fixpoint."""
 
-    def __init__(self, fn, group, entry, touching, rel=None):
+    def __init__(self, fn, group, entry, touching, rel=None, counters=(), any_vector=False):
         self.fn, self.group, self.touching, self.rel = fn, sorted(group), touching, rel
+        self.counters = set(counters)          # decl ids of integer step counters, tracked under the key "c:<d>"
+        self.any_vector = any_vector
         self.lo = Locals(fn)
         self.problems, self.bad_uses = [], []
         self.splits = []
         self.exits = []
+        self.outs = {}
         cfg = fn.cfg
         self.ins = {cfg.entry: dict(entry)}
         work = [cfg.entry]
@@ -2434,12 +2437,48 @@ class ListFlow:
                     work.append(s)
         for b in list(self.ins):
             out = self.transfer(b, dict(self.ins[b]), True)
+            self.outs[b] = out
             if b in cfg.normal_exit_preds():
                 self.exits.append((b, out))
 
+    def field_of(self, e):
+        if self.any_vector:
+            e2 = self.lo.resolve(e)
+            if e2.get("k") == "Member" and e2.get("field") and (e2.get("b") is None or e2["b"].get("k") == "This") and re.match(r"^(const )?std::vector<", (self.fn.ntype(e2) or "").strip()):
+                return e2["n"]
+            return None
+        return list_field_of(self.fn, self.lo, e)
+
+    def counter_step(self, n, st):
+        """effect of a CFG element on the tracked integer counters; returns True if it was one"""
+        k = n.get("k")
+        if k == "Decl":
+            for v in n.get("vars", []):
+                if v["d"] in self.counters:
+                    ck2 = "c:%s" % v["d"]
+                    init = strip(v["init"]) if v.get("init") is not None else None
+                    st[ck2] = ("0", 0) if init is not None and init.get("k") == "Int" and str(init.get("v")) == "0" else TOP
+            return False
+        if k == "Un" and n.get("op") in ("++", "--") and strip(n["e"]).get("k") == "Ref" and strip(n["e"]).get("d") in self.counters:
+            ck2 = "c:%s" % strip(n["e"])["d"]
+            if st.get(ck2, TOP) != TOP:
+                st[ck2] = (st[ck2][0], st[ck2][1] + (1 if n["op"] == "++" else -1))
+            return True
+        if k == "Assign" and strip(n["lhs"]).get("k") == "Ref" and strip(n["lhs"]).get("d") in self.counters:
+            ck2 = "c:%s" % strip(n["lhs"])["d"]
+            r = strip(n["rhs"])
+            if n.get("op") in ("+=", "-=") and r.get("k") == "Int" and st.get(ck2, TOP) != TOP:
+                st[ck2] = (st[ck2][0], st[ck2][1] + (int(r["v"]) if n["op"] == "+=" else -int(r["v"])))
+            elif n.get("op") == "=" and r.get("k") == "Int" and str(r.get("v")) == "0":
+                st[ck2] = ("0", 0)
+            else:
+                st[ck2] = TOP
+            return True
+        return False
+
     def diffs(self, st):
         """difference vector if all lists share one base, else None"""
-        vals = [st[g] for g in self.group]
+        vals = [st.get(g, TOP) for g in self.group]
         if any(v == TOP for v in vals) or len({v[0] for v in vals}) != 1:
             return None
         m = min(v[1] for v in vals)
@@ -2465,17 +2504,17 @@ class ListFlow:
         res = {}
         d1, d2 = self.diffs(old), self.diffs(new)
         if d1 is not None and d1 == d2:
-            same = all(old[g] == new[g] for g in self.group)
+            same = all(old.get(g, TOP) == new.get(g, TOP) for g in self.group)
             for g, k in zip(self.group, d1):
-                res[g] = old[g] if same else ("N@B%d" % blk, k)
+                res[g] = old.get(g, TOP) if same else ("N@B%d" % blk, k)
         else:
             for g in self.group:
-                if old[g] != new[g]:
-                    if old[g] != TOP and new[g] != TOP:
+                if old.get(g, TOP) != new.get(g, TOP):
+                    if old.get(g, TOP) != TOP and new.get(g, TOP) != TOP:
                         self.note_split(blk)
                     res[g] = TOP
                 else:
-                    res[g] = old[g]
+                    res[g] = old.get(g, TOP)
         for k in set(old) | set(new):
             if k in self.group:
                 continue
@@ -2527,7 +2566,7 @@ class ListFlow:
                 a, b = sorted([a, b])
             return "%s(%s,%s)" % (nm, a, b)
         if k == "MCall" and cname(e) == "size" and e.get("obj") is not None:
-            f = list_field_of(self.fn, self.lo, e["obj"])
+            f = self.field_of(e["obj"])
             if f in self.group:
                 return len_str(st[f])
         if k == "Call" and cname(e) in ("min", "max") and len(e.get("a", [])) == 2:
@@ -2541,6 +2580,9 @@ class ListFlow:
             if n is None:
                 continue
             k = n.get("k")
+            if self.counters and self.counter_step(n, st):
+                self.normalise(st, sid)
+                continue
             if k == "Decl":
                 for v in n.get("vars", []):
                     if v.get("ref") or v.get("init") is None:
@@ -2553,17 +2595,17 @@ class ListFlow:
                 continue
             if k == "Assign" or (k == "OpCall" and n.get("op") == "="):
                 lr = as_assign(n)
-                if lr is not None and list_field_of(fn, self.lo, lr[0]) in self.group:
-                    st[list_field_of(fn, self.lo, lr[0])] = TOP
+                if lr is not None and self.field_of(lr[0]) in self.group:
+                    st[self.field_of(lr[0])] = TOP
                     if record:
                         self.problems.append("line %s: whole-list assignment %s" % (n.get("l"), render(n)[:50]))
                 continue
             if not is_call(n):
                 continue
             nm = cname(n)
-            fld = list_field_of(fn, self.lo, n["obj"]) if (k == "MCall" and n.get("obj") is not None) else None
+            fld = self.field_of(n["obj"]) if (k == "MCall" and n.get("obj") is not None) else None
             if k == "OpCall" and n.get("op") == "[]" and n.get("a"):
-                fld, nm = list_field_of(fn, self.lo, n["a"][0]), "at"
+                fld, nm = self.field_of(n["a"][0]), "at"
             if fld in self.group:
                 if nm in LEN_DELTA:
                     if st[fld] != TOP:
@@ -2592,7 +2634,7 @@ class ListFlow:
                 continue
             # a list handed to some other callee
             for a in n.get("a", []):
-                f2 = list_field_of(fn, self.lo, a)
+                f2 = self.field_of(a)
                 if f2 in self.group:
                     pt = fn.type(n["pt"][n["a"].index(a)]) if n.get("pt") and n["a"].index(a) < len(n["pt"]) else ""
                     if "const" not in pt:
@@ -2601,8 +2643,140 @@ class ListFlow:
                             self.problems.append("line %s: list %s passed to %s" % (n.get("l"), f2, nm))
         return st
 
+    def name_of(self, g):
+        if g.startswith("c:"):
+            v = self.lo.var.get(int(g[2:]))
+            return v["n"] if v else g
+        return "|%s|" % g
+
     def describe(self, st):
-        return ", ".join("|%s| = %s" % (g, "unknown" if st[g] == TOP else len_str(st[g])) for g in self.group)
+        return ", ".join("%s = %s" % (self.name_of(g), "unknown" if st.get(g, TOP) == TOP else len_str(st[g])) for g in self.group)
+
+
+def natural_loop(cfg, head):
+    """natural loop of the back edges into `head`: head plus every block that reaches a back-edge source without passing head"""
+    tails = [p for p in cfg.pred.get(head, []) if head in cfg.dom.get(p, ())]
+    body, st = {head}, list(tails)
+    while st:
+        b = st.pop()
+        if b in body:
+            continue
+        body.add(b)
+        st.extend(cfg.pred.get(b, []))
+    return body
+
+
+def rule_step_counters(ck, solvers):
+    """a loop whose number of performed steps is read afterwards: every exit (condition and breaks) leaves the
+    live-out step counter and the per-step containers advanced by the same number of steps"""
+    ninst = 0
+    for sc in sorted(SOLVERS):
+        for fn in solvers.get(sc, {}).get("_apply_intern", [])[:1]:
+            cfg = fn.cfg
+            lo = Locals(fn)
+            where = {}
+            for bid, b in cfg.blocks.items():
+                for sid in b["el"]:
+                    where[sid] = bid
+            par = parent_map(fn)
+            for head, hb in sorted(cfg.blocks.items()):
+                if hb.get("term") not in ("WhileStmt", "ForStmt", "DoStmt"):
+                    continue
+                loop = natural_loop(cfg, head)
+                if len(loop) < 2:
+                    continue
+                after = set()
+                for b in loop:
+                    for x in cfg.succ.get(b, []):
+                        if x not in loop:
+                            after |= cfg.reachable(x)
+                after -= loop
+                # integer locals incremented inside, declared outside, read after the loop
+                counters = set()
+                for b in loop:
+                    for sid in cfg.blocks[b]["el"]:
+                        n = fn.by_id(sid)
+                        if n is not None and n.get("k") == "Un" and n.get("op") == "++" and strip(n["e"]).get("k") == "Ref" and strip(n["e"]).get("dk") == "local":
+                            d = strip(n["e"])["d"]
+                            v = lo.var.get(d)
+                            if v is None or v.get("ref") or not re.search(r"Index|int|long|size_t", fn.type(v.get("t")) or ""):
+                                continue
+                            decl_blocks = [where.get(x["i"]) for x in fn.nodes() if x.get("k") == "Decl" and any(vv["d"] == d for vv in x.get("vars", []))]
+                            if any(db in loop for db in decl_blocks):
+                                continue
+                            read_after = False
+                            for r in refs_of(fn, d):
+                                st_ = stmt_of(fn, par, r)
+                                if st_ is not None and where.get(st_["i"]) in after:
+                                    read_after = True
+                            if not read_after:
+                                # a condition of a block after the loop may read it too
+                                for b2 in after:
+                                    c = fn.by_id(cfg.blocks[b2].get("cond")) if cfg.blocks[b2].get("cond") is not None else None
+                                    if c is not None and any(x.get("k") == "Ref" and x.get("d") == d for x in walk(c)):
+                                        read_after = True
+                            if read_after:
+                                counters.add(d)
+                if not counters:
+                    continue
+                # containers that grow by one per step inside the loop
+                lists = set()
+                probe = ListFlow.__new__(ListFlow)
+                probe.fn, probe.lo, probe.any_vector = fn, lo, True
+                for b in loop:
+                    for sid in cfg.blocks[b]["el"]:
+                        n = fn.by_id(sid)
+                        if n is not None and n.get("k") == "MCall" and cname(n) in LEN_DELTA and n.get("obj") is not None:
+                            f = probe.field_of(n["obj"])
+                            if f:
+                                lists.add(f)
+                if not lists:
+                    continue
+                ninst += 1
+                group = sorted(lists) + ["c:%s" % d for d in sorted(counters)]
+                cnames = [lo.var[d]["n"] for d in sorted(counters)]
+                key = "%s::_apply_intern/loop{%s}" % (sc, ",".join(sorted(lists) + cnames))
+                entry = {g: ("len(%s)" % g, 0) for g in lists}
+                lf = ListFlow(fn, group, entry, set(), None, counters=counters, any_vector=True)
+                for pr in lf.problems[:2]:
+                    ck.incomplete("E8.step-counter-balance", "%s: %s" % (key, pr))
+                # relation on entering the loop
+                pre = [p for p in cfg.pred.get(head, []) if p not in loop and p in lf.outs]
+                d0s = {lf.diffs(lf.outs[p]) for p in pre}
+                if len(d0s) != 1 or None in d0s:
+                    ck.incomplete("E8.step-counter-balance", "%s: counters and containers are not in a known relation when the loop at line %s is entered (%s)" % (
+                        key, compress(cfg.block_lines([head])[:1]), "; ".join(lf.describe(lf.outs[p]) for p in pre)))
+                    continue
+                d0 = d0s.pop()
+                bad, nexit = [], 0
+                for b in sorted(loop):
+                    if b not in lf.outs:
+                        continue
+                    for x in cfg.succ.get(b, []):
+                        if x in loop or x is None:
+                            continue
+                        nexit += 1
+                        st = lf.outs[b]
+                        d = lf.diffs(st)
+                        ln_b, seen_b, cur = "", set(), [b]
+                        while cur and not ln_b:
+                            nb = cur.pop(0)
+                            if nb in seen_b:
+                                continue
+                            seen_b.add(nb)
+                            ls = [l for l in cfg.block_lines([nb]) if l]
+                            cnd = fn.by_id(cfg.blocks[nb].get("cond")) if cfg.blocks[nb].get("cond") is not None else None
+                            ln_b = str(ls[-1]) if ls else (str(cnd.get("l")) if cnd is not None else "")
+                            cur.extend(cfg.pred.get(nb, []))
+                        how = "its condition" if b == head else "the break after line %s" % ln_b
+                        if d is None and any(st.get(g, TOP) == TOP for g in group):
+                            ck.incomplete("E8.step-counter-balance", "%s: at the loop exit through %s the step counts cannot be related (%s)" % (key, how, lf.describe(st)))
+                        elif d != d0:
+                            bad.append("leaving the loop through %s: %s — relative to loop entry the counter%s %s and the containers %s have advanced by different numbers of steps, "
+                                       "so the code after the loop (which reads %s) processes fewer/more steps than were performed" % (how, lf.describe(st), "s" if len(cnames) > 1 else "", ", ".join(cnames), ", ".join(sorted(lists)), ", ".join(cnames)))
+                ck.ob("E8.step-counter-balance", key, not bad, "; ".join(bad[:2]) if bad else "all %d exits of the loop at line %s leave %s in step" % (nexit, compress(cfg.block_lines([head])[:1]), ", ".join(sorted(lists) + cnames)),
+                      fn.file, (fn.by_id(hb["cond"]) or {}).get("l") if hb.get("cond") is not None else fn.line)
+    return ninst
 
 
 def rule_parallel_lists(ck, solvers):
@@ -3133,6 +3307,11 @@ def rule_dimensions(ck, solvers):
 
 
 RULES = [
+    ("E8.step-counter-balance", 2,
+     "for every loop of an _apply_intern with an integer local that is incremented inside, declared outside and read after the loop (a count of performed steps) "
+     "and std::vector members that grow by push_back inside it (GMRES and FGMRES inner Arnoldi loops: i with _c, _s, _q): symbolic length/counter dataflow; on "
+     "every edge leaving the loop (condition and each break) counter and containers have advanced by the same number of steps as on entry. Broken => input class: "
+     "runs leaving the loop through that exit (lucky breakdown, inner convergence): the update after the loop uses one basis vector too few."),
     ("E8.numeric-refresh", 7,
      "taint analysis of every init_numeric override (PCGNR, PCGNRILU, Chebyshev): each member whose value is computed from _system_matrix (directly or through "
      "locals / other derived members) is recomputed on every path, or only skipped under tests of configuration / loop control; if the recomputation is "
@@ -3266,6 +3445,7 @@ def run(tier):
     rule_solution_defect_balance(ck, solvers, cv)
     rule_iterate_additive(ck, solvers)
     rule_validity_flags(ck, solvers)
+    rule_step_counters(ck, solvers)
     ck.assume("comparisons are over a total order (a<b == !(b<=a)): NaN defects are excluded by the isfinite tests that the decision tables show to come first")
     ck.assume("virtual calls resolve to the statically named callee: none of the 16 solvers overrides _set_initial_defect/_set_new_defect/_update_defect/_analyse_defect/_calc_def_norm")
     ck.assume("inner counted loops of _apply_intern run at least once (krylov_dim, l >= 1 are asserted by the constructors/setters)")
